@@ -46,7 +46,7 @@ static void armCaseTimer(long seconds) {
 static void caseCpuHandler(int) {
     const double used = userSeconds() - g_caseUserStart;
     if (used + 1.0 < static_cast<double>(g_caseLimit)) { long rest = g_caseLimit - static_cast<long>(used); armCaseTimer(rest < 5 ? 5 : rest); return; }
-    const char m[] = "\nCPU-BUDGET-EXCEEDED: one case used more CPU time than VERIF_CASE_CPU_S allows\n"; ssize_t r = write(2, m, sizeof m - 1); (void)r; _exit(97);
+    const char m[] = "\nCPU-BUDGET-EXCEEDED: one case used more CPU time than VERIF_CASE_CPU_S allows\n"; ssize_t r = write(2, m, sizeof m - 1); (void)r; _exit(96);     // 96 = budget of the harness exhausted (inconclusive); 97 = C16's own per-load guard
 }
 void caseCpuGuard(bool on) {
     if (g_caseLimit < 0) { const char *e = getenv("VERIF_CASE_CPU_S"); g_caseLimit = e ? atol(e) : 180; signal(SIGPROF, caseCpuHandler); }
@@ -65,6 +65,9 @@ extern "C" void ezc3d_verif_on_read(size_t) {
 extern "C" void ezc3d_verif_on_data_decl(size_t nFrames, size_t nPoints, size_t nAnalogs, size_t nSub) {
     vf::HookState &h = vf::hook();
     if (!h.on) return;
+    // a frame count beyond 2^32 is not "more data than the file holds" (KF-D17's class: counts a file can really declare, up to 65536
+    // frames): it comes from a sign-extended 16-bit word and the library is expected to refuse it at once, which stays under test
+    if (nFrames > (1ULL << 32)) return;
     // saturating product
     long double d = static_cast<long double>(nFrames) * (4.0L * nPoints + static_cast<long double>(nAnalogs) * nSub) * 4.0L
                     + static_cast<long double>(nFrames) * 64.0L + static_cast<long double>(nFrames) * static_cast<long double>(nSub) * 32.0L;
